@@ -65,6 +65,36 @@ def fd_scalar(f, h0, ntab=NTAB):
     return richardson(central_differences(fp, fm, h0))
 
 
+def fd_one_sided(f, h0, sign, ntab=NTAB):
+    """Derivative of t -> f(t) at t=0 from values at t = 0 and sign*h0/2^k only (never stepping to the other side):
+    Richardson tableau over forward differences (error terms h, h^2, ...). Same error estimate as richardson()."""
+    f0 = f(0.0)
+    ds = []
+    h = h0
+    for _ in range(ntab):
+        ds.append((f(sign * h) - f0) / (sign * h))
+        h /= CON
+    n = len(ds)
+    if n < 3 or not all(math.isfinite(c) for c in ds):
+        return float("nan"), float("inf")
+    a = [[0.0] * n for _ in range(n)]
+    for i in range(n):
+        a[0][i] = ds[i]
+        fac = CON
+        for j in range(1, i + 1):
+            a[j][i] = (a[j - 1][i] * fac - a[j - 1][i - 1]) / (fac - 1.0)
+            fac *= CON
+    diag = [a[k][k] for k in range(n)]
+    best, err = None, math.inf
+    for k in range(2, n - 1):
+        e = max(abs(diag[k] - diag[k - 1]), abs(diag[k + 1] - diag[k]))
+        if e < err:
+            best, err = k, e
+    if best is None or not math.isfinite(err):
+        return float("nan"), float("inf")
+    return diag[best], err
+
+
 # ------------------------------------------------------------------ closed forms (mpmath)
 
 def _phi(u):
